@@ -1,9 +1,9 @@
 """C01 -- single-particle Matsubara Green's function equals its definition."""
 import pipeline
 
-LEAN_MODULES = ['PomerolModel.Properties.C01']
+LEAN_MODULES = ['PomerolModel.Properties.C01', 'PomerolModel.Properties.C01Merge']
 GENERATED = ['gf']
-THEOREMS = ["Pomerol.Properties.C01." + t for t in ['gf_equals_definition', 'lehmann_any_basis', 'terms_sum_to_lehmann', 'dropped_terms_budget', 'container_equals_standalone', 'dropped_terms_budget_extracted', 'sparse_walk_is_full_sum', 'sparse_walk_computes_lehmann_part', 'block_pairs_complete', 'loops_compute_lehmann_sum']]
+THEOREMS = ["Pomerol.Properties.C01." + t for t in ['gf_equals_definition', 'lehmann_any_basis', 'terms_sum_to_lehmann', 'dropped_terms_budget', 'container_equals_standalone', 'dropped_terms_budget_extracted', 'sparse_walk_is_full_sum', 'sparse_walk_computes_lehmann_part', 'block_pairs_complete', 'loops_compute_lehmann_sum']] + ["Pomerol.Properties.C01Merge." + t for t in ['addTerm_spec_approx', 'addAll_spec_approx', 'merge_error_one', 'merged_value_error', 'merged_value_error_matsubara']]
 RULE = 'a case = random lattice model (1-3 sites, presets and user terms incl. N- or S_z-breaking ones), symmetry mode, beta, all/sampled (i,j) incl. off-diagonal, Matsubara numbers incl. negative and large; value compared with the full-Fock-space Lehmann sum from the certified eigen-system; non-trivial = distinct case with at least two modes'
 TRUSTED = ["harness/pipe.cpp drives the real classes along the documented workflow; case-file protocol with hex doubles",
            "numeric oracle (lean/Driver/Numeric*.lean): IEEE double arithmetic of compiled Lean, full-Fock-space sums",
